@@ -653,3 +653,5 @@ def run(L, tier):
     L.stage(r8_roundtrip, L, repo)
     from pyutil import memo_sound
     L.stage(memo_sound, L, repo, "C01.R7", ("data_msg", "gsm_shared"))
+    from pyutil import oneshot_constants
+    L.stage(oneshot_constants, L, repo, "C01.R7", ("data_msg", "gsm_shared"))
